@@ -1,5 +1,7 @@
 import Driver.Proto
 import Model.Conv128
+import Model.Conv128Fmt
+import Model.Conv128Load
 open Proto Conv GoSem
 
 def hex16 (n : Nat) : String :=
@@ -56,6 +58,51 @@ def f64op (op : String) (a b : F64) (an : Nat) : String :=
 
 def rep (n : Nat) (s : String) : String := " ".intercalate (List.replicate n s)
 
+/-! word-level `big.Int` lines (area `words`): every line is answered for both sizes of `big.Word`; the check keeps the
+    segment of the word size the harness was built for (`W64 …` on amd64, `W32 …` on the GOARCH=386 build) -/
+def wordsStr (ws : List Nat) : String := if ws.isEmpty then "-" else ",".intercalate (ws.map natToHex)
+def bothW (f : Nat → String) : String := "W32 " ++ f 32 ++ " ;; W64 " ++ f 64
+def parseMag? (sign mag : String) : Option (Bool × Nat) :=
+  match hexToNat? mag with
+  | some n => some (sign == "-" && n != 0, n)
+  | none => none
+def signStr (neg : Bool) : String := if neg then "-" else "+"
+
+/-! area `format`: `<type> format <hi:lo> <flags> <width|-> <precision|-> <verb>` -/
+def parseFlags? (s : String) : Option FmtState :=
+  if s == "." then some ⟨false, false, false, false, false, none, none⟩
+  else if s.toList.all (fun c => c == 'p' || c == 'm' || c == 's' || c == 'b' || c == 'z') then
+    some ⟨s.toList.contains 'p', s.toList.contains 'm', s.toList.contains 's', s.toList.contains 'b', s.toList.contains 'z',
+      none, none⟩
+  else none
+def parseOptNat? (s : String) : Option (Option Nat) := if s == "-" then some none else s.toNat?.map some
+def charsHex (l : List Char) : String := bytesHex (l.map Char.toNat)
+
+/-- the answer to a `format` line: the text twice (Format called directly, fmt.Sprintf) and what Sscanf with the same
+    verb reads back from it (`Scan` on the token) -/
+def formatLine (args : List String) (fmtOf : FmtState → Char → Option (List Char)) (scanOf : List Char → Char → Option String) :
+    String :=
+  match args with
+  | [fl, w, p, vb] =>
+    (match parseFlags? fl, parseOptNat? w, parseOptNat? p, vb.toList with
+     | some st, some w, some p, [verb] =>
+       (match fmtOf { st with width := w, prec := p } verb with
+        | none => "unsupported"
+        | some text =>
+          rep 2 (charsHex text) ++ " " ++
+            (match scanOf (fmtToken text) verb with | some r => "ok:" ++ r | none => "err"))
+     | _, _, _, _ => "bad-op")
+  | _ => "bad-op"
+
+def bigFloatStr (x : Int) (r : Nat × Int) : String :=
+  toString r.1 ++ " " ++ intHex r.2 ++ " " ++ (if r.2 == x then "Exact" else if r.2 < x then "Below" else "Above") ++ " true"
+
+/-- what the callback / the scan state delivers: `ok` = the text, `none` = nothing stored (the empty string), `err` = failure -/
+def delivered? (mode : String) (t : String) : Option (Option (List Char)) :=
+  match hexBytes? t with
+  | some bs => if mode == "ok" then some (some (bytesToChars bs)) else if mode == "none" then some (some []) else if mode == "err" then some none else none
+  | none => none
+
 def stepU (op : String) (args : List String) : String :=
   match op, args with
   | "fromfloat", [b] => (match parseF64? b with | some f => cvU (U128.fromFloat64 f) | none => "bad-op")
@@ -80,6 +127,34 @@ def stepU (op : String) (args : List String) : String :=
        rep 3 (b2s r.2 ++ "/" ++ uStr r.1)
      | none => "bad-op")
   | "frombig", [sg, m] => (match parseBig? sg m with | some z => uStr (U128.fromBigInt z) | none => "bad-op")
+  | "format", p :: rest =>
+    (match parsePair? p with
+     | some (h, l) => formatLine rest (fun st v => U128.format st v ⟨h, l⟩) (fun t v => (U128.scan t v).map uStr)
+     | none => "bad-op")
+  | "yamlcb", [mode, t] =>
+    (match delivered? mode t with
+     | some cb => let r := U128.unmarshalYAML ⟨sentinelHi, sentinelLo⟩ cb; b2s r.2 ++ "/" ++ uStr r.1
+     | none => "bad-op")
+  | "scantok", [mode, vb, t] =>
+    (match delivered? mode t, vb.toList with
+     | some tok, [verb] => let r := U128.scanInto ⟨sentinelHi, sentinelLo⟩ tok verb; b2s r.2 ++ "/" ++ uStr r.1
+     | _, _ => "bad-op")
+  | "float64m", [p] =>
+    (match parsePair? p with
+     | some (h, l) => (match U128.float64Method ⟨h, l⟩ with | none => "err" | some _ => "ok")
+     | none => "bad-op")
+  | "asbigfloat", [p] =>
+    (match parsePair? p with
+     | some (h, l) => bigFloatStr (U128.asBigInt ⟨h, l⟩) (U128.asBigFloat ⟨h, l⟩)
+     | none => "bad-op")
+  | "frombigw", [sg, m] =>
+    (match parseMag? sg m with
+     | some (neg, n) => bothW fun W => let ws := natToWords W n; wordsStr ws ++ " " ++ uStr (U128.fromBigIntW W neg ws)
+     | none => "bad-op")
+  | "tobigw", [p, _, dm] =>
+    (match parsePair? p, hexToNat? dm with
+     | some (h, l), some d => bothW fun W => "+ " ++ wordsStr (U128.toBigIntW W (natToWords W d) ⟨h, l⟩)
+     | _, _ => "bad-op")
   | "asbig", [p] => (match parsePair? p with | some (h, l) => intHex (U128.asBigInt ⟨h, l⟩) | none => "bad-op")
   | "str", [p] => (match parsePair? p with | some (h, l) => rep 4 (String.ofList (U128.toString ⟨h, l⟩)) | none => "bad-op")
   | "narrow", [p] =>
@@ -120,6 +195,35 @@ def stepI (op : String) (args : List String) : String :=
        rep 3 (b2s r.2 ++ "/" ++ iStr r.1)
      | none => "bad-op")
   | "frombig", [sg, m] => (match parseBig? sg m with | some z => iStr (I128.fromBigInt z) | none => "bad-op")
+  | "format", p :: rest =>
+    (match parsePair? p with
+     | some (h, l) => formatLine rest (fun st v => I128.format st v ⟨h, l⟩) (fun t v => (I128.scan t v).map iStr)
+     | none => "bad-op")
+  | "yamlcb", [mode, t] =>
+    (match delivered? mode t with
+     | some cb => let r := I128.unmarshalYAML ⟨sentinelHi, sentinelLo⟩ cb; b2s r.2 ++ "/" ++ iStr r.1
+     | none => "bad-op")
+  | "scantok", [mode, vb, t] =>
+    (match delivered? mode t, vb.toList with
+     | some tok, [verb] => let r := I128.scanInto ⟨sentinelHi, sentinelLo⟩ tok verb; b2s r.2 ++ "/" ++ iStr r.1
+     | _, _ => "bad-op")
+  | "float64m", [p] =>
+    (match parsePair? p with
+     | some (h, l) => (match I128.float64Method ⟨h, l⟩ with | none => "err" | some _ => "ok")
+     | none => "bad-op")
+  | "asbigfloat", [p] =>
+    (match parsePair? p with
+     | some (h, l) => bigFloatStr (I128.asBigInt ⟨h, l⟩) (I128.asBigFloat ⟨h, l⟩)
+     | none => "bad-op")
+  | "frombigw", [sg, m] =>
+    (match parseMag? sg m with
+     | some (neg, n) => bothW fun W => let ws := natToWords W n; wordsStr ws ++ " " ++ iStr (I128.fromBigIntW W neg ws)
+     | none => "bad-op")
+  | "tobigw", [p, _, dm] =>
+    (match parsePair? p, hexToNat? dm with
+     | some (h, l), some d =>
+       bothW fun W => let r := I128.toBigIntW W (natToWords W d) ⟨h, l⟩; signStr r.1 ++ " " ++ wordsStr r.2
+     | _, _ => "bad-op")
   | "asbig", [p] => (match parsePair? p with | some (h, l) => intHex (I128.asBigInt ⟨h, l⟩) | none => "bad-op")
   | "str", [p] => (match parsePair? p with | some (h, l) => rep 4 (String.ofList (I128.toString ⟨h, l⟩)) | none => "bad-op")
   | "narrow", [p] =>
